@@ -99,7 +99,7 @@ EmptyContent(solver) ==
    rule |-> [r \in RxU |-> RuleNone], objc |-> [r \in RxU |-> 0], dir |-> "max",
    sbo |-> [r \in RxU |-> "none"],
    func |-> [g \in GeneU |-> TRUE], member |-> [g \in GrpU |-> {}],
-   ann |-> [x \in AllIds |-> 0], xcols |-> {}, xrows |-> {}, solver |-> solver]
+   ann |-> [x \in AllIds |-> 0], note |-> [x \in AllIds |-> 0], xcols |-> {}, xrows |-> {}, solver |-> solver]
 NoModel == [none |-> TRUE]
 IsModel(c) == "rxns" \in DOMAIN c
 
@@ -129,7 +129,9 @@ Canon(C) ==
             !.func = [g \in GeneU |-> IF g \in C.genes THEN C.func[g] ELSE TRUE],
             !.member = [g \in GrpU |-> IF g \in C.groups
                                        THEN C.member[g] \cap (C.rxns \cup C.mets \cup C.genes \cup C.groups)
-                                       ELSE {}]]
+                                       ELSE {}],
+            !.ann = [x \in AllIds |-> IF x \in (C.rxns \cup C.mets \cup C.genes) THEN C.ann[x] ELSE 0],
+            !.note = [x \in AllIds |-> IF x \in (C.rxns \cup C.mets \cup C.genes) THEN C.note[x] ELSE 0]]
 
 \* ------------------------------------------------------------------ results
 Res(C, raises, atomic, ret) == [c |-> C, raises |-> raises, atomic |-> atomic, ret |-> ret]
@@ -285,7 +287,9 @@ A_RenameGene(C, old, new) ==
                                                        THEN (C.member[gr] \ {old}) \cup {new}
                                                        ELSE C.member[gr] \ {old}],
                            !.ann = [x \in AllIds |-> IF x = new /\ new \notin C.genes THEN C.ann[old]
-                                                     ELSE IF x = old THEN 0 ELSE C.ann[x]]]
+                                                     ELSE IF x = old THEN 0 ELSE C.ann[x]],
+                           !.note = [x \in AllIds |-> IF x = new /\ new \notin C.genes THEN C.note[old]
+                                                      ELSE IF x = old THEN 0 ELSE C.note[x]]]
        IN Ok(C1)
 
 \* reaction.id = new / metabolite.id = new
@@ -297,14 +301,14 @@ A_RenameReaction(C, r, new) ==
                     !.S = SwapKey(C.S, r, new, [m \in MetU |-> 0]), !.lb = SwapKey(C.lb, r, new, 0),
                     !.ub = SwapKey(C.ub, r, new, 0), !.rule = SwapKey(C.rule, r, new, RuleNone),
                     !.objc = SwapKey(C.objc, r, new, 0), !.sbo = SwapKey(C.sbo, r, new, "none"),
-                    !.ann = SwapKey(C.ann, r, new, 0),
+                    !.ann = SwapKey(C.ann, r, new, 0), !.note = SwapKey(C.note, r, new, 0),
                     !.member = [g \in GrpU |-> IF r \in C.member[g] THEN (C.member[g] \ {r}) \cup {new} ELSE C.member[g]]])
 A_RenameMetabolite(C, m, new) ==
   IF m \notin C.mets \/ m = new THEN FailLoose(C, "skip")
   ELSE IF new \in C.mets THEN FailAtomic(C, "ValueError")
   ELSE Ok([C EXCEPT !.mets = (@ \ {m}) \cup {new},
                     !.S = [r \in RxU |-> SwapKey(C.S[r], m, new, 0)],
-                    !.ann = SwapKey(C.ann, m, new, 0),
+                    !.ann = SwapKey(C.ann, m, new, 0), !.note = SwapKey(C.note, m, new, 0),
                     !.member = [g \in GrpU |-> IF m \in C.member[g] THEN (C.member[g] \ {m}) \cup {new} ELSE C.member[g]]])
 
 \* objective
@@ -350,8 +354,9 @@ A_AddGroup(C, g, members) ==
   ELSE IF g \in C.groups THEN Ok(C)
   ELSE Ok([C EXCEPT !.groups = @ \cup {g}, !.member[g] = members])
 A_RemoveGroup(C, g) == IF g \in C.groups THEN Ok([C EXCEPT !.groups = @ \ {g}]) ELSE Ok(C)
-A_Annotate(C, x, v) ==
-  IF x \notin (C.rxns \cup C.mets \cup C.genes) THEN FailLoose(C, "skip") ELSE Ok([C EXCEPT !.ann[x] = v])
+A_Annotate(C, x, v, via) ==     \* via 0: annotation[k] = v; 1: annotation = {...}; 2: notes[k] = v as well
+  IF x \notin (C.rxns \cup C.mets \cup C.genes) THEN FailLoose(C, "skip")
+  ELSE Ok([C EXCEPT !.ann[x] = v, !.note[x] = IF via = 2 THEN v ELSE @])
 
 \* io round trips: what import(export(model)) is documented to preserve.  Pickle keeps everything (it carries
 \* the solver object); the text formats rebuild the model with the default solver, without user-added
@@ -407,7 +412,7 @@ ContentOp(op, C) ==
     [] op.a = "RemoveUserVar"      -> A_RemoveUserVar(C, op.name)
     [] op.a = "AddGroup"           -> A_AddGroup(C, op.g, SeqSet(op.members))
     [] op.a = "RemoveGroup"        -> A_RemoveGroup(C, op.g)
-    [] op.a = "Annotate"           -> A_Annotate(C, op.x, op.v)
+    [] op.a = "Annotate"           -> A_Annotate(C, op.x, op.v, op.via)
     [] op.a = "RoundTrip"          -> A_RoundTrip(C, op.fmt)
     [] op.a = "GetMedium"          -> IF HasExt(C) THEN Ok(C) ELSE FailLoose(C, "skip")   \* which reactions are exchanges
                                                                       \* is a naming heuristic otherwise
@@ -434,20 +439,37 @@ Apply(op, St) ==
      ELSE SRes([St EXCEPT !.helper[s] = IF @ = 0 THEN Len(St.ctx[s]) ELSE @], "none", FALSE, NoRet)
   ELSE IF op.a = "Exit" THEN
      IF ~IsModel(St.m[s]) \/ Len(St.ctx[s]) = 0 THEN Skip(St)
+     ELSE IF St.taint[s] THEN
+          LET n == Len(St.ctx[s]) IN
+          SRes([St EXCEPT !.ctx[s] = SubSeq(@, 1, n - 1), !.helper[s] = IF @ > n - 1 THEN 0 ELSE @,
+                          !.taint[s] = (n - 1 > 0)], "skip", FALSE, NoRet)
      ELSE LET n == Len(St.ctx[s]) snap == St.ctx[s][n] IN
           SRes([St EXCEPT !.m[s] = (IF Bug = "exit_keeps_bounds" THEN [snap EXCEPT !.lb = St.m[s].lb] ELSE snap),
                           !.ctx[s] = SubSeq(@, 1, n - 1),
                           !.helper[s] = IF @ > n - 1 THEN 0 ELSE @], "none", TRUE, NoRet)
   ELSE IF op.a = "Copy" THEN      \* slot op.s -> slot op.t by copy() / deepcopy / pickle
      IF ~IsModel(St.m[s]) \/ op.t = s \/ St.helper[s] # 0 THEN Skip(St)
-     ELSE SRes([St EXCEPT !.m[op.t] = St.m[s], !.ctx[op.t] = <<>>, !.helper[op.t] = 0], "none", TRUE, NoRet)
+     ELSE SRes([St EXCEPT !.m[op.t] = St.m[s], !.ctx[op.t] = <<>>, !.helper[op.t] = 0, !.sw[op.t] = St.sw[s], !.taint[op.t] = FALSE],
+               "none", TRUE, NoRet)
   ELSE IF op.a = "NewModel" THEN
-     SRes([St EXCEPT !.m[s] = EmptyContent(op.solver), !.ctx[s] = <<>>, !.helper[s] = 0], "none", TRUE, NoRet)
+     SRes([St EXCEPT !.m[s] = EmptyContent(op.solver), !.ctx[s] = <<>>, !.helper[s] = 0, !.sw[s] = FALSE, !.taint[s] = FALSE],
+          "none", TRUE, NoRet)
   ELSE IF ~IsModel(St.m[s]) THEN Skip(St)
   ELSE IF op.a = "RoundTrip" /\ Len(St.ctx[s]) > 0 THEN Skip(St)      \* the loaded model replaces the object
+  ELSE IF op.a \in NotContextAware /\ Len(St.ctx[s]) > 0
+       THEN Lift([St EXCEPT !.taint[s] = TRUE], s, ContentOp(op, St.m[s]))
+  ELSE IF op.a = "SwitchSolver" /\ Len(St.ctx[s]) > 0 /\ op.solver # St.m[s].solver
+       THEN Lift([St EXCEPT !.sw[s] = TRUE], s, ContentOp(op, St.m[s]))
   ELSE Lift(St, s, ContentOp(op, St.m[s]))
 
-InitState == [m |-> [s \in Slots |-> NoModel], ctx |-> [s \in Slots |-> <<>>], helper |-> [s \in Slots |-> 0]]
+\* sw[s]: the solver interface of slot s was switched while a context was open (history flag; the undo
+\* functions registered before the switch are bound to the replaced solver object -- known finding F38)
+InitState == [m |-> [s \in Slots |-> NoModel], ctx |-> [s \in Slots |-> <<>>], helper |-> [s \in Slots |-> 0],
+              sw |-> [s \in Slots |-> FALSE],
+              \* taint[s]: an operation that is NOT documented as reversible (annotations, groups, renaming
+              \* reactions/metabolites) was applied while a context was open: the exits of the contexts open at
+              \* that time are not judged against their snapshots
+              taint |-> [s \in Slots |-> FALSE]]
 
 \* ------------------------------------------------------------------ invariants on a content / state
 \* C02: cross references, derived declaratively from the content
